@@ -250,6 +250,12 @@ func runC04(c *an.Ctx) {
 		})
 	}
 
+	c04LowestTTL(c, "dnsserver/cache.findLowestTTL", "cache.getTTLIfLower")
+	c04LowestTTL(c, "dnsmsg.FindLowestTTL", "dnsmsg.getTTLIfLower")
+	// ---- R7 the simple cache's handler and lookup
+	c.Floor("C04-R7", 2)
+	c04SimpleCache(c)
+
 	// ---- R5a simple cache hit path rebuilds the message from the item
 	if fn := c.Fn("dnsserver/cache.(*Middleware).fromCacheItem"); fn == nil {
 		c.Und("C04-R5", "dnsserver/cache.(*Middleware).fromCacheItem", token.NoPos, "anchor not found")
@@ -333,6 +339,212 @@ func runC04(c *an.Ctx) {
 
 // ecsStoreOrder checks that the ECS cache stores the upstream answer after
 // hop-by-hop clean-up and before any request-specific adjustment.
+// c04SimpleCache holds the tables of the plain cache middleware's handler and get.
+func c04SimpleCache(c *an.Ctx) {
+	const cm = "dnsserver/cache.(*Middleware)."
+	decide(c, "C04-R7", cm+"Wrap$1", an.DecideCfg{
+		Dom:    an.Domain{"hit": an.Bools, "nexterr": an.Bools, "resp": an.NilOrNot, "seterr": an.Bools, "writeerr": an.Bools},
+		Inline: func(f *ssa.Function) bool { return strings.HasPrefix(an.FnKey(f), cm+"Wrap$1$") },
+		OnCall: func(it *an.Interp, name string, args []an.AV) (an.AV, bool) {
+			errOr := func(k, e string) an.AV {
+				if it.Feature(k).IsTrue() {
+					return an.NonNil(e)
+				}
+				return an.Nil()
+			}
+			switch {
+			case strings.HasSuffix(name, "cache.Middleware).get"):
+				if args[1].String() != "p2" {
+					return an.Sym("lookup for another message"), true
+				}
+				return an.AV{Kind: an.KTuple, Tup: []an.AV{an.NonNil("cached"), it.Feature("hit")}}, true
+			case strings.Contains(name, ".metrics.On"):
+				return an.Nil(), true
+			case name == "p1.WriteMsg":
+				return errOr("writeerr", "writeErr"), true
+			case name == "p1.LocalAddr", name == "p1.RemoteAddr":
+				return an.Sym(name), true
+			case strings.HasSuffix(name, "dnsserver.NewNonWriterResponseWriter"):
+				return an.NonNil("nrw"), true
+			case strings.HasSuffix(name, "handler.ServeDNS"):
+				return errOr("nexterr", "nextErr"), true
+			case strings.HasSuffix(name, "NonWriterResponseWriter).Msg"):
+				v := it.Feature("resp")
+				if v.Kind == an.KNonNil {
+					v.Key = "fresh"
+				}
+				return v, true
+			case strings.HasSuffix(name, "cache.Middleware).set"):
+				return errOr("seterr", "setErr"), true
+			case strings.HasSuffix(name, ".cache.Len"):
+				return an.Sym("len"), true
+			case strings.HasSuffix(name, "errors.Annotate"):
+				return args[0], true
+			case name == "fmt.Errorf":
+				return an.NonNil("wrapped"), true
+			}
+			return an.AV{}, false
+		},
+		Expect: func(f an.Features, o an.AOutcome) string {
+			if o.Exit != "return" || len(o.Ret) != 1 {
+				return "an error result"
+			}
+			var writes, sets, nexts []string
+			for _, e := range o.Effects {
+				if e.Kind != "call" {
+					continue
+				}
+				switch {
+				case e.Name == "p1.WriteMsg":
+					writes = append(writes, strings.Join(e.Args, ","))
+				case strings.HasSuffix(e.Name, "cache.Middleware).set"):
+					sets = append(sets, e.Args[1])
+				case strings.HasSuffix(e.Name, "handler.ServeDNS"):
+					nexts = append(nexts, strings.Join(e.Args, ","))
+				}
+			}
+			if f.B("hit") {
+				if len(nexts) == 0 && len(sets) == 0 && len(writes) == 1 && writes[0] == "p0,p2,nonnil:cached" && f.B("writeerr") == (o.Ret[0].Kind != an.KNil) {
+					return ""
+				}
+				return "the cached answer written once for this request, without querying the next stage; got writes " + strings.Join(writes, " / ")
+			}
+			if len(nexts) != 1 || nexts[0] != "p0,nonnil:nrw,p2" {
+				return "the next stage queried once with a non-writer on a miss; got " + strings.Join(nexts, " / ")
+			}
+			switch {
+			case f.B("nexterr"):
+				if len(writes)+len(sets) == 0 && o.Ret[0].Kind != an.KNil {
+					return ""
+				}
+				return "the next stage's error returned, nothing stored or written"
+			case f.IsNil("resp"):
+				if len(writes)+len(sets) == 0 && o.Ret[0].Kind == an.KNil {
+					return ""
+				}
+				return "nothing stored or written when the next stage produced no answer"
+			}
+			if len(sets) != 1 || sets[0] != "nonnil:fresh" {
+				return "the fresh answer offered to the cache once; got " + strings.Join(sets, " / ")
+			}
+			if f.B("seterr") {
+				if len(writes) == 0 && o.Ret[0].Kind != an.KNil {
+					return ""
+				}
+				return "the store error returned"
+			}
+			if len(writes) != 1 || writes[0] != "p0,p2,nonnil:fresh" || f.B("writeerr") != (o.Ret[0].Kind != an.KNil) {
+				return "the fresh answer written once for this request; got " + strings.Join(writes, " / ")
+			}
+			return ""
+		},
+	})
+	decide(c, "C04-R7", cm+"get", an.DecideCfg{
+		Dom: an.Domain{"geterr": an.Bools, "oktype": an.Bools},
+		OnCall: func(it *an.Interp, name string, args []an.AV) (an.AV, bool) {
+			switch {
+			case strings.HasSuffix(name, "cache.toCacheKey"):
+				return an.NonNil("key(" + args[0].String() + ")"), true
+			case name == "p0.cache.Get":
+				if it.Feature("geterr").IsTrue() {
+					return an.AV{Kind: an.KTuple, Tup: []an.AV{an.Nil(), an.NonNil("getErr")}}, true
+				}
+				v := an.NonNil("val(" + args[0].String() + ")")
+				if it.Feature("oktype").IsTrue() {
+					v.Dyn = "dnsserver/cache.cacheItem"
+				} else {
+					v.Dyn = "string"
+				}
+				return an.AV{Kind: an.KTuple, Tup: []an.AV{v, an.Nil()}}, true
+			case strings.HasSuffix(name, "errors.Is"):
+				return an.CBool(true), true
+			case strings.HasSuffix(name, "log.Error"):
+				return an.Nil(), true
+			case strings.HasSuffix(name, "cache.Middleware).fromCacheItem"):
+				return an.NonNil("rebuilt(" + args[1].String() + "," + args[2].String() + ")"), true
+			}
+			return an.AV{}, false
+		},
+		Expect: func(f an.Features, o an.AOutcome) string {
+			for _, e := range o.Effects {
+				if e.Kind == "call" && e.Name == "p0.cache.Get" && e.Args[0] != "nonnil:key(p1)" {
+					return "the cache consulted with the key of this request; got " + e.Args[0]
+				}
+			}
+			if f.B("geterr") || !f.B("oktype") {
+				if o.RetString() == "nil, false" {
+					return ""
+				}
+				return "a miss when the cache has no (usable) item; got " + o.RetString()
+			}
+			if len(o.Ret) == 2 && strings.HasPrefix(o.Ret[0].String(), "nonnil:rebuilt(") && strings.HasSuffix(o.Ret[0].String(), ",p1)") && o.Ret[1].String() == "true" {
+				return ""
+			}
+			return "the answer rebuilt from the cached item for this request; got " + o.RetString()
+		},
+	})
+}
+
+// c04LowestTTL is the table of the two lowest-TTL helpers: the minimum over
+// all records of the three sections, 0 without records, SERVFAIL capped.
+func c04LowestTTL(c *an.Ctx, fnKey, helper string) {
+	servfail, _ := c.ConstInt("github.com/miekg/dns", "RcodeServerFailure")
+	secs := []string{"Answer", "Ns", "Extra"}
+	dom := an.Domain{"p0.MsgHdr.Rcode": an.Ints(0, servfail), "len(p0.Answer)": an.Ints(0, 2), "len(p0.Ns)": an.Ints(0, 1), "len(p0.Extra)": an.Ints(0, 1)}
+	var rrs []string
+	for _, sec := range secs {
+		for i := 0; i < 2; i++ {
+			k := fmt.Sprintf("p0.%s[%d]", sec, i)
+			rrs = append(rrs, k)
+			dom["ttl:"+k] = an.Ints(0, 20, 100)
+		}
+	}
+	decide(c, "C04-R4", fnKey, an.DecideCfg{
+		Dom: dom,
+		OnCall: func(it *an.Interp, name string, args []an.AV) (an.AV, bool) {
+			if strings.HasSuffix(name, helper) {
+				cur := avInt(args[1])
+				t := avInt(it.Feature("ttl:" + args[0].String()))
+				if t < cur {
+					return an.CInt(t), true
+				}
+				return args[1], true
+			}
+			return an.AV{}, false
+		},
+		MaxRuns: 6000,
+		Expect: func(f an.Features, o an.AOutcome) string {
+			lens := map[string]int64{"Answer": f.I("len(p0.Answer)"), "Ns": f.I("len(p0.Ns)"), "Extra": f.I("len(p0.Extra)")}
+			want := int64(-1)
+			for _, sec := range secs {
+				for i := int64(0); i < lens[sec]; i++ {
+					t := f.I(fmt.Sprintf("ttl:p0.%s[%d]", sec, i))
+					if want < 0 || t < want {
+						want = t
+					}
+					if want == 0 {
+						break
+					}
+				}
+				if want == 0 {
+					break
+				}
+			}
+			// a SERVFAIL without records (the usual shape) is cacheable for the capped time
+			if f.I("p0.MsgHdr.Rcode") == servfail && (want > 30 || want < 0) {
+				want = 30
+			}
+			if want < 0 {
+				want = 0
+			}
+			if o.RetString() != fmt.Sprint(want) {
+				return fmt.Sprintf("%d (the lowest TTL over all sections; 0 without records; SERVFAIL: at most 30, and 30 without records); got %s", want, o.RetString())
+			}
+			return ""
+		},
+	})
+}
+
 func ecsStoreOrder(c *an.Ctx, rule string) {
 	fn := c.Fn("ecscache.(*Middleware).writeUpstreamResponse")
 	if fn == nil {
